@@ -268,7 +268,9 @@ def multicall(ctx, c, rng):
     fx = c.fx
     # the same MultiCall object is reused for consecutive batches (a batch must leave nothing behind for the next one)
     if getattr(c, "mc", None) is None or rng.random() < 0.3:
-        c.mc = jsonrpclib.MultiCall(c.proxy, config=c.proxy._config)
+        # (with and without the configuration argument: a batch built from a proxy uses the proxy's configuration)
+        c.mc = jsonrpclib.MultiCall(c.proxy, config=c.proxy._config) if rng.random() < 0.5 else \
+            jsonrpclib.MultiCall(c.proxy)
     mc = c.mc
     c.planned.clear()
     for j in jobs:
